@@ -12,36 +12,36 @@ def leg(scen, flav, runs, workers, det, rt, maxs=None, extra=None):
     return {"scenario": scen, "flavour": flav, "args": a}
 
 CARDS_ASSUME = [
- "the cards scenario drives the discrete-log card encoding (Schnorr group with random or canonical g, quadratic-residue group); the Schindelhauer quadratic-residuosity encoding is driven for C01/C02 by the qrcards scenario (openings with each player's own secret key, no interactive residuosity proofs)",
+ "the cards scenario drives the discrete-log card encoding (Schnorr group with random or canonical g, quadratic-residue group); the Schindelhauer quadratic-residuosity encoding is driven by the qrcards scenario: C01/C02 with masking chains, shuffles and openings (own secret key and verified bits of the other players), C03/C04/C05 with the interactive proofs of that encoding (card-secret opening proof, masking proof, cut-and-choose shuffle/rotation proof) between two tasks; false statements there use security parameter 32 (a chance acceptance, probability 2^-32 per session, would be reported)",
  "small groups (384..768-bit p, 160..200-bit q) and challenge lengths 16..64 so that thousands of sessions fit in a check; the library takes all sizes at run time",
  "false statements are realised as an edited public input on the verifier's side (the prover runs the unmodified library code on the true statement), never as prover-side calls that would trip the library's own asserts",
- "asserted transcript mutations: value+1, 0, swap with the next line of the same direction, +1 on an embedded number of a structured line, and value+q / value+p only at positions where the verifier code states the range (responses of the equality-of-logarithm proofs, elements of the decryption proof); other out-of-range representatives are not asserted",
+ "asserted transcript mutations: value+1, 0, swap with the next line of the same direction, +1 on an embedded number of a structured line, and value+q / value+p on every numeric prover->verifier line of every proof kind (an exponent plus q is out of range, an exponent plus p another residue, an element plus p out of range, an element plus q another element); the negative representative value-q is recorded, not asserted",
 ]
 
 P = {}
 P["C01"] = dict(level="exploration", design="DESIGN.md 7.7", assumptions=CARDS_ASSUME + ["the 'missing share' clause is asserted for cards that were masked at least once (an open card has c_1 = 1 and is public)"],
- quick=[leg("cards","plain",5000,16,16,120), leg("cards","asan",700,10,8,240), leg("qrcards","plain",8000,16,16,120), leg("qrcards","asan",2000,10,8,120)],
- thorough=[leg("cards","plain",400000,16,128,120,1000), leg("cards","asan",20000,10,32,240,500), leg("qrcards","plain",800000,16,128,120,400), leg("qrcards","asan",60000,10,32,120,300)],
+ quick=[leg("cards","plain",5000,16,16,120), leg("cards","asan",700,10,8,240), leg("qrcards","plain",8000,16,16,120,None,["--noproofs","1"]), leg("qrcards","asan",2000,10,8,120,None,["--noproofs","1"]), leg("qrcards","plain",3000,16,16,120)],
+ thorough=[leg("cards","plain",400000,16,128,120,1000), leg("cards","asan",20000,10,32,240,500), leg("qrcards","plain",800000,16,128,120,400,["--noproofs","1"]), leg("qrcards","asan",60000,10,32,120,300,["--noproofs","1"]), leg("qrcards","plain",300000,16,128,120,300)],
  text="Seeded k-player tables (k=2..7, 1..7 type bits, three group kinds, timing protection on/off) run masking chains of any length by any players and open cards with the real share protocol between player instances; the opened type is compared with a reference model, and openings with one contributor missing must give the invalid-type sentinel.",
  note="trusted: harness reference model (vector of types), libgmp; opening shares travel over string streams (the decryption proof is one-way)")
 P["C02"] = dict(level="exploration", design="DESIGN.md 7.7", assumptions=CARDS_ASSUME + ["all n! permutations are not enumerated; sizes 1..24 sampled, chains of shuffles by several players"],
- quick=[leg("cards","plain",5000,16,16,120), leg("cards","asan",700,10,8,240), leg("qrcards","plain",8000,16,16,120), leg("qrcards","asan",2000,10,8,120)],
- thorough=[leg("cards","plain",400000,16,128,120,1000), leg("cards","asan",20000,10,32,240,500), leg("qrcards","plain",800000,16,128,120,400), leg("qrcards","asan",60000,10,32,120,300)],
+ quick=[leg("cards","plain",5000,16,16,120), leg("cards","asan",700,10,8,240), leg("qrcards","plain",8000,16,16,120,None,["--noproofs","1"]), leg("qrcards","asan",2000,10,8,120,None,["--noproofs","1"]), leg("qrcards","plain",3000,16,16,120)],
+ thorough=[leg("cards","plain",400000,16,128,120,1000), leg("cards","asan",20000,10,32,240,500), leg("qrcards","plain",800000,16,128,120,400,["--noproofs","1"]), leg("qrcards","asan",60000,10,32,120,300,["--noproofs","1"]), leg("qrcards","plain",300000,16,128,120,300)],
  text="Stacks with repeated types are shuffled and rotated by several players in sequence; the reference model applies the index vector of each stack secret and every card of the resulting stack is opened with the real protocol and compared; every generated secret is checked to be a bijection (a shift by exactly the reported offset for rotations) and a secret with a repeated index must be refused on import.",
  note="trusted: harness reference model, libgmp")
 P["C03"] = dict(level="exploration", design="DESIGN.md 7.7", assumptions=CARDS_ASSUME + ["Rabin key validity proofs are not driven (pure function of a key); the coin-flipping sub-protocol is judged under C17 and runs inside the public-coin variants here"],
- quick=[leg("cards","plain",5000,16,16,120,None,["--nofaults","1"]), leg("cards","asan",700,10,8,240,None,["--nofaults","1"])],
- thorough=[leg("cards","plain",400000,16,128,120,1000,["--nofaults","1"]), leg("cards","asan",20000,10,32,240,500,["--nofaults","1"])],
+ quick=[leg("cards","plain",5000,16,16,120,None,["--nofaults","1"]), leg("cards","asan",700,10,8,240,None,["--nofaults","1"]), leg("qrcards","plain",3000,16,16,120,None,["--nofaults","1"]), leg("qrcards","asan",1000,10,8,240,None,["--nofaults","1"])],
+ thorough=[leg("cards","plain",400000,16,128,120,1000,["--nofaults","1"]), leg("cards","asan",20000,10,32,240,500,["--nofaults","1"]), leg("qrcards","plain",300000,16,128,120,400,["--nofaults","1"]), leg("qrcards","asan",20000,10,32,120,300,["--nofaults","1"])],
  text="Fault-free configuration: every verifier entry point of the discrete-log encoding (key share interactive and public-coin, verifiable masking, re-masking, decryption share, cut-and-choose shuffle and rotation, Groth shuffle argument in interactive, public-coin and non-interactive form, rotation argument interactive and non-interactive) is driven by its matching prover between two tasks over a fragmenting stream pair, across swarm-varied players, type bits, kappa 0..12, challenge lengths, groups and stack sizes; every session must end with the verifier returning true. The schedule dimension is degenerate (blocking reads order the two tasks); the simulation contributes that every entry point is exercised over a real transport in many configurations.",
  note="trusted: the harness calls prover and verifier with matching arguments; libgmp/libgcrypt")
 P["C04"] = dict(level="exploration", design="DESIGN.md 7.7", assumptions=CARDS_ASSUME + ["sigma-protocol, Groth and rotation arguments: soundness error <= 2^-16 for the smallest challenge length used - a false acceptance by chance would be reported as a violation; cut-and-choose: the oracle is exact (verifier coins are read from the wire or forced through the randomness seam)"],
- quick=[leg("cards","plain",5000,16,16,120), leg("cards","asan",700,10,8,240)],
- thorough=[leg("cards","plain",400000,16,128,120,1000), leg("cards","asan",20000,10,32,240,500)],
+ quick=[leg("cards","plain",5000,16,16,120), leg("cards","asan",700,10,8,240), leg("qrcards","plain",3000,16,16,120), leg("qrcards","asan",1000,10,8,240)],
+ thorough=[leg("cards","plain",400000,16,128,120,1000), leg("cards","asan",20000,10,32,240,500), leg("qrcards","plain",300000,16,128,120,400), leg("qrcards","asan",40000,10,32,240,300)],
  text="Byzantine prover task: the honest prover code runs while the verifier holds a false statement - output stack with a card substituted, duplicated, dropped or re-typed, exchanged cards presented as a rotation, a non-cyclic permutation presented as a rotation, a mask that changes the type, a decryption share from a key that is not at the table, a key share multiplied by g - and every verifier must refuse. For cut-and-choose the acceptance must match the verifier's coin string exactly (accepted iff every challenge bit equals the one bit value the prover's commitments fit), and a harness prover that prepares for a guessed string is accepted for exactly that string with the verifier's coins forced through the randomness seam (kappa <= 8 quick, <= 16 thorough).",
  note="trusted: harness construction of false statements; the coin seam (libgcrypt random entry points wrapped at link time)")
 P["C05"] = dict(level="fault_enumeration", design="DESIGN.md 7.7", assumptions=CARDS_ASSUME + ["changes of the group or the common key as public input are not injected (the instances precompute tables from them); card components of both stacks, masked values and keys are"],
- quick=[leg("cards","plain",5000,16,16,120), leg("cards","asan",700,10,8,240)],
- thorough=[leg("cards","plain",400000,16,128,120,1000), leg("cards","asan",20000,10,32,240,500)],
+ quick=[leg("cards","plain",5000,16,16,120), leg("cards","asan",700,10,8,240), leg("qrcards","plain",3000,16,16,120), leg("qrcards","asan",1000,10,8,240)],
+ thorough=[leg("cards","plain",400000,16,128,120,1000), leg("cards","asan",20000,10,32,240,500), leg("qrcards","plain",300000,16,128,120,400), leg("qrcards","asan",40000,10,32,240,300)],
  text="Relaying man in the middle: each session is first run clean to learn its transcript, then replayed from the same coins with exactly one line altered (every prover->verifier line and every verifier->prover challenge; mutations +1, 0, swap with neighbour, +1 inside a structured line, value+q/value+p where the code states the range), or with one component of the verifier's public input changed; the verifier must not return true. Positions and mutations are drawn by the seed, not enumerated exhaustively per session.",
  note="trusted: the transcript schema is not assumed - mutations are chosen so that a wrong guess of a field's type cannot produce a false alarm")
 P["C08"] = dict(level="exploration", design="DESIGN.md 7.6", assumptions=["duplicate delivery of an already accepted contribution is not injected: the statement is silent about it and the code multiplies twice",
@@ -52,9 +52,9 @@ P["C08"] = dict(level="exploration", design="DESIGN.md 7.6", assumptions=["dupli
  note="trusted: harness product model (libgmp)")
 P["C12"] = dict(level="fault_enumeration", design="DESIGN.md 7.8", assumptions=["scope: every receiving side reachable in the simulations (verifiers of all proof kinds, channel receivers, broadcast, OT, coin flip) and the importers / stream constructors fed with simulation-produced artefacts under truncation at every offset and single-byte corruption; arbitrary byte strings unrelated to a valid artefact are outside what this family generates",
    "a crash, sanitizer report, abort, uncaught non-standard exception or hang on a receiving side is a violation; a negative result or a std::exception is a clean refusal",
-   "sanitizer build uses -DTMCG_MAX_STACK_CHARS=4194304 (the macro is #ifndef-guarded) to keep the 671 MB line buffer from dominating the run time"],
- quick=[leg("cards","asan",900,10,8,240), leg("torn","asan",0,10,0,240), leg("aio","asan",500,10,8,120), leg("rbc","asan",800,10,8,60), leg("ot","asan",600,10,8,60), leg("flip2","asan",600,10,8,60), leg("pgp","asan",12000,10,32,120), leg("keygen","asan",800,10,8,60)],
- thorough=[leg("cards","asan",40000,10,32,240,900), leg("torn","asan",0,10,0,240,None,["--deep","1"]), leg("aio","asan",8000,10,16,120,300), leg("rbc","asan",20000,10,16,60,300), leg("ot","asan",10000,10,16,60,120), leg("flip2","asan",10000,10,16,60,120), leg("pgp","asan",600000,10,64,120,400), leg("keygen","asan",20000,10,16,60,120)],
+   "sanitizer build reduces TMCG_MAX_STACK_CHARS to 4 MB (-D for the scenario sources, a shadowed libTMCG_config.h for the library sources, which define it unconditionally) to keep the 671 MB line buffer of every stack import from dominating the run time"],
+ quick=[leg("cards","asan",900,10,8,240), leg("torn","asan",0,10,0,240), leg("aio","asan",500,10,8,120), leg("rbc","asan",800,10,8,60), leg("ot","asan",600,10,8,60), leg("flip2","asan",600,10,8,60), leg("pgp","asan",12000,10,32,120), leg("keygen","asan",800,10,8,60), leg("qrcards","asan",1000,10,8,240)],
+ thorough=[leg("cards","asan",40000,10,32,240,900), leg("torn","asan",0,10,0,240,None,["--deep","1"]), leg("aio","asan",8000,10,16,120,300), leg("rbc","asan",20000,10,16,60,300), leg("ot","asan",10000,10,16,60,120), leg("flip2","asan",10000,10,16,60,120), leg("pgp","asan",600000,10,64,120,400), leg("keygen","asan",20000,10,16,60,120), leg("qrcards","asan",40000,10,16,240,200)],
  text="All scenarios are run in the ASan+UBSan build (library built without NDEBUG, as shipped, so a reachable assert is a kill); the cards scenario adds truncation of the transcript inside any prover line, well-formed stack secrets of another size, line swaps and mutations; the pgp scenario feeds the OpenPGP parsers with emitted packets whose bodies are truncated at every offset with re-encoded lengths, bit-flipped and cut; the torn scenario re-imports every artefact kind (cards, secrets, stacks, stack secrets, keys, groups, commitment parameters, persisted protocol states, non-interactive proofs) cut at every byte offset and with single bytes flipped. Any crash, sanitizer report, abort or hang attributed to a seed is a violation.",
  note="trusted: sanitizers; not a general fuzzer")
 P["C13"] = dict(level="exploration", design="DESIGN.md 7.1", assumptions=[
